@@ -399,6 +399,8 @@ VmTrap vm_core_execute(VmState *vm) {
                     else
                         ev = val_int(ea.as.i64 + eb.as.i64);
                     vm_array_push(result, ev);
+                    /* push took its own reference; drop ours on a freshly built string */
+                    if (ev.tag == TAG_STRING) vm_release(&vm->heap, ev);
                 }
                 vm_release(&vm->heap, a);
                 vm_release(&vm->heap, b);
@@ -436,6 +438,8 @@ VmTrap vm_core_execute(VmState *vm) {
                     } else
                         ev = val_int(ea.as.i64 + scalar.as.i64);
                     vm_array_push(result, ev);
+                    /* push took its own reference; drop ours on a freshly built string */
+                    if (ev.tag == TAG_STRING) vm_release(&vm->heap, ev);
                 }
                 vm_release(&vm->heap, a);
                 vm_release(&vm->heap, b);
